@@ -5,7 +5,8 @@
                                     demo.py passes on the clean tree and fails on the patched tree
   seeded.py run <dir> [C07 ...]     run the owning check(s) (quick tier, several seeds) against a scratch
                                     copy of /repo with the patch applied (VERIF_REPO); report caught / missed
-  seeded.py all                     `run` for every directory under /verif/seeded, write sensitivity/report.json
+  seeded.py all [suffix ...]        `run` for every directory under /verif/seeded (or those whose name ends with a
+                                    given suffix), write sensitivity/report.json
 
 <dir> holds patch.diff, demo.py, meta.json.  Scratch copies live under the system temp dir and are removed.
 """
@@ -119,7 +120,10 @@ def main():
     elif cmd == 'all':
         base = os.path.join(HERE, 'seeded')
         report = []
+        only = sys.argv[2:]
         for name in sorted(os.listdir(base)):
+            if only and not any(name.endswith(x) or name == x for x in only):
+                continue
             d = os.path.join(base, name)
             if os.path.isfile(os.path.join(d, 'patch.diff')):
                 meta = json.load(open(os.path.join(d, 'meta.json')))
@@ -138,8 +142,9 @@ def main():
                 print(name, {k: v['caught'] for k, v in r['checks'].items()})
                 sys.stdout.flush()
                 report.append(r)
-        os.makedirs(os.path.join(HERE, 'sensitivity'), exist_ok=True)
-        json.dump(report, open(os.path.join(HERE, 'sensitivity', 'report.json'), 'w'), indent=1)
+        if not only:
+            os.makedirs(os.path.join(HERE, 'sensitivity'), exist_ok=True)
+            json.dump(report, open(os.path.join(HERE, 'sensitivity', 'report.json'), 'w'), indent=1)
 
 
 if __name__ == '__main__':
